@@ -55,6 +55,21 @@ func registerVxFS(e *Engine) {
 		st.nodes[p] = &fsNode{name: p, vsize: int(ex.concreteInt(args[1], "FSSparseFile size", true)), mode: 0o644, complete: true, gen: st.nextGen}
 		return nil
 	})
+	e.reg(vxPath+".FSSparseFileSym", func(ex *Exec, fr *frame, args []Value) Value {
+		st := ex.fs()
+		p := ex.fsPath(args[0])
+		ex.ensureDirs(st, parentDir(p))
+		st.nextGen++
+		t, _ := args[1].(*Term)
+		n := &fsNode{name: p, mode: 0o644, complete: true, gen: st.nextGen}
+		if t != nil && !t.IsConst() {
+			n.vsizeT = t
+		} else if t != nil {
+			n.vsize = int(t.C)
+		}
+		st.nodes[p] = n
+		return nil
+	})
 	e.reg(vxPath+".FSSparsePatch", func(ex *Exec, fr *frame, args []Value) Value {
 		st := ex.fs()
 		n := st.nodes[ex.fsPath(args[0])]
